@@ -384,9 +384,9 @@ prop('C11',
      assumptions=['one remote peer, one connection at a time; the remote is scripted through its substreams (sends its handshake and stays, or closes)',
                   'timers (10 s negotiation / open time-outs) never fire within the explored window',
                   'tokio mpsc / oneshot models; FuturesUnordered serves ready futures in the real implementation\'s FIFO order; the biased select! polls its branches in source order (as the real macro does)'],
-     bounds={'events': 'quick 5, thorough 6 of connect / disconnect / user open / user close / answer the pending substream request (fails, remote handshakes, remote closes) / remote opens an inbound substream (closes at once / handshakes and stays / handshakes, sends one notification and closes or stays) / user validation answer / poll stream tasks; then the connection is lost and everything is polled',
+     bounds={'events': 'from a fresh protocol: quick 4, thorough 6; after a forced opening sequence (connect, user open, remote answers the handshake, remote opens its substream): quick 3, thorough 4; of connect / disconnect / user open / user close / answer the pending substream request (fails, remote handshakes, remote closes) / remote opens an inbound substream (closes at once / handshakes and stays / handshakes, sends one notification and closes or stays) / user validation answer / poll stream tasks; then the connection is lost and everything is polled',
              'carrier': 'ideal (io_budget 0): chunking and Pending of the substream carriers are exercised by C04/C12'},
-     outside=['two real endpoints talking to each other (the remote is scripted)', 'several peers and simultaneous connections', 'time-outs', 'notification traffic on the open stream (C12)'],
+     outside=['two real endpoints talking to each other (the remote is scripted)', 'several peers and simultaneous connections', 'time-outs', 'notification traffic beyond the single notification the scripted remote may send (C12 covers the stream task)'],
      )
 
 prop('C12',
